@@ -79,7 +79,7 @@ def judge_subspace(out, x, xc, g, lb, ub, B, xbar, where, tags, mats=None):
         # singular system can be expected. Judged with a loose tolerance and reported separately.
         out.count("rank_deficient_memory_inputs")
         out.maxi("max_point_err_over_scale_rank_deficient", err / scale)
-        tol = 1e-4 * scale
+        tol = scale * max(1e-4, 5e4 * (ref["cond"] + kmid) * EPS)  # never tighter than the conditioning-based tolerance of the regular case
     else:
         tol = scale * max(PT_TOL, 5e4 * (ref["cond"] + kmid) * EPS)
         out.maxi("max_point_err_over_scale_kappa_eps", err / (scale * (max(ref["cond"], 1.0) + kmid) * EPS))
@@ -167,7 +167,7 @@ def cases(tier, seed):
         yield {"kind": "random", "seed": subseed("C09r", seed, i) % (2**31), "count": 20}
     nruns = 150 if tier == "quick" else 4000
     rng = np.random.default_rng(subseed("C09runs", seed))
-    fams = ("qp", "qp_quartic", "qp_softplus", "rosenbrock", "styblinski_tang", "rastrigin", "oscillating", "badly_scaled")
+    fams = ("qp", "qp_quartic", "qp_softplus", "rosenbrock", "styblinski_tang", "rastrigin", "oscillating")  # (badly_scaled was tried: K-matrix conditioning of 1e10 and more, the step is rounding noise in Algorithm 778 as well)
     for i in range(nruns):
         ps = gen.rand_spec(rng, fams, nmax=10, boxes=("mixed", "boxed", "narrow", "lower", "upper", "boxed_degenerate", "none"),
                            starts=("face", "vertex", "outward", "interior"))
